@@ -550,4 +550,45 @@ Section AGG.
                (mem_spans re_match parse_float c d Hcons e Hkeys Hlits Hlen attr conds Hc) P2 (agg_sem parse_float true ag)
                (fun _ _ => eq_refl) (cap_spans re_match parse_float c d Hcons Hcap e Hkeys Hlits Hlen attr conds Hc) c SEL Hans).
   Qed.
+
+  (* without the guard spans_capped, judged by result_ok_cap (see traceql_correct_single_any_spans): the aggregate filter is decided over
+     ALL matched spans of a trace (HAVING sees every row of the group), only the returned span list is cut at 100 *)
+  Theorem traceql_correct_agg_any_spans n s :
+    plan q2 MSearch c n = Ok s ->
+    exists res, index_rows_g re_match parse_float hash64 c d s = Some res
+                /\ result_ok_cap 100 c (traceql_sem re_match parse_float false c d q2) res = true.
+  Proof.
+    intros Hplan. destruct (plan_agg_inv n s Hplan) as [Hla [conds [txt [Hc [Hord [Htxt ->]]]]]].
+    destruct (withs_agg conds txt) as [rest Hw].
+    set (T := sql_spans re_match parse_float c d e attr conds).
+    assert (Hans : exists SEL, grouped_answer T P2 (lim_of c) = Some SEL).
+    { unfold grouped_answer, lim_of. destruct (Z.eqb (limit c) 0); [eexists; reflexivity|].
+      change (map (fun g => ([VInt (g_key g)], g)) (tgroups T P2)) with (map (fun g => enc (g_key g, g)) (tgroups T P2)).
+      rewrite <- (map_map (fun g => (g_key g, g)) enc), sort_by_enc. eexists; reflexivity. }
+    destruct Hans as [SEL Hans].
+    exists (map (fun g => (g_trace g, g_spans g)) SEL). split.
+    - unfold index_rows_g. rewrite Hw. cbn [eval_until_g].
+      change 12 with (S 11). rewrite eval_sel_S.
+      rewrite (index_search_bridge re_match parse_float hash64 c d e attr conds Hkeys Hc Hlits Hlen Hdepth).
+      change (String.eqb "index_search" "index_grouped") with false. cbv iota.
+      rewrite eval_sel_S. unfold grouped2. fold T.
+      assert (Hal : having_aliases ev_fuel (hv2 txt) = []).
+      { unfold hv2, hv2p. apply having_aliases_nil_LOp2; [destruct (g_fn ag); reflexivity|reflexivity]. }
+      rewrite (grouped_bridge re_match parse_float hash64 [(attrs_table c, map row_of_irow d)] "" false
+                 (eval_sel re_match parse_float hash64 [(attrs_table c, map row_of_irow d)] 11)
+                 [("index_search", map mspan_row T)] T eq_refl (Some (hv2 txt)) P2 Hal).
+      + rewrite Hans. cbn [option_map]. rewrite String.eqb_refl. rewrite map_map.
+        apply all_some_map_ext. intros g _. unfold g_row. cbn [app lookup String.eqb Ascii.eqb Bool.eqb].
+        now rewrite all_some_VStr.
+      + intros h m0 rest' Hh Hg. injection Hh as <-. exact (hv2_decides conds Hc txt Hord Htxt Hla _ "" false m0 rest' Hg).
+      + discriminate.
+    - rewrite sem_agg_round. unfold result_ok_cap.
+      pose proof (mem_spans re_match parse_float c d Hcons e Hkeys Hlits Hlen attr conds Hc) as Hmem.
+      apply (answer_ok_j T matched (mspan_of parse_float attr) (fun _ => eq_refl) (fun _ => eq_refl)
+               Hmem P2 (agg_sem parse_float true ag) (fun _ _ => eq_refl) c (cap_set 100) SEL); [|exact Hans].
+      intros g Hg.
+      apply (grp_spans_cap T matched (mspan_of parse_float attr) (fun _ => eq_refl) (fun _ => eq_refl) Hmem g Hg).
+      + exact (group_spans_NoDup' re_match parse_float c d e attr conds g Hg).
+      + exact (ref_spans_NoDup re_match parse_float c d e (g_trace g)).
+  Qed.
 End AGG.
